@@ -170,7 +170,8 @@ def make_source(src):
     if k == "tuple":
         return items, tuple(items), None
     if k == "range":
-        return list(range(n)), range(n), None
+        ra = src.get("rargs") or [n]
+        return list(range(*ra)), range(*ra), None
     if k == "ndarray":
         return items, np.array(items, dtype="i8"), None
     if k == "gen":
@@ -267,6 +268,12 @@ def plan_wrap(S, prop, tier, avoid):
     src = {"kind": kind, "n": n}
     if kind in ("countgen", "countseq") and chance(r, 0.25):
         src["fail_at"] = r.randrange(0, n + 1)
+    ra = S.py("rangeargs")
+    if kind == "range" and chance(ra, 0.5):
+        # ranges other than range(n): a start, a step, a range that ends at 0 or counts down (always n items)
+        step = pick(ra, [1, 1, 1, 2, 3, -1, -1, -2])
+        stop = pick(ra, [0, 0, ra.randrange(-5, 6)])
+        src["rargs"] = [stop - n * step, stop, step] if (step != 1 or chance(ra, 0.3)) else [stop - n, stop]
     has_len = kind not in ("gen", "countgen")
     entry = wpick(r, [("pbar", 5), ("PBar", 1), ("sbar", 1.5), ("prange", 1.5 if kind == "range" else 0)])
     opts = draw_opts(r, n, has_len, simple_ok=entry in ("pbar", "PBar", "prange"))
@@ -366,7 +373,10 @@ def plan_pool(S, prop, tier, avoid):
                 pc["fault"] = {"kind": wpick(h, [("die", 3), ("raise", 2)]), "at": h.randrange(pn)}
             pre.append(pc)
     # how the caller hands the items over: a container with a length, or a one-shot iterable without one
-    itemform = wpick(S.py("itemform"), [("list", 5), ("tuple", 1), ("gen", 2), ("iter", 1), ("map", 1)])
+    fr = S.py("itemform")
+    itemform = wpick(fr, [("list", 5), ("tuple", 1), ("gen", 2), ("iter", 1), ("map", 1), ("gen_pmap", 0.4)])
+    if pipeline is None and n <= 8 and chance(fr, 0.05):
+        work = "nested"
     return {"cfg": {"nproc": nproc, "chunksize": chunksize, "kw": kw, "work": work, "pipeline": pipeline,
                     "clock": draw_clock(S.py("clock")), "tiebreak": tiebreak, "lat_regime": regime, "pre": pre,
                     "itemform": itemform},
@@ -565,12 +575,14 @@ def execute_wrap(script, run, env):
 
     if not has_len:
         run.fault("lengthless_source")
+    if src.get("rargs"):
+        run.fault("range_with_start_or_step")
     if opts.get("total") is not None and opts["total"] != n:
         run.fault("wrong_total")
     with _ClockInstalled(clock, True):
         try:
             if entry == "prange":
-                it = pb.prange(n, **opts)
+                it = pb.prange(*(src.get("rargs") or [n]), **opts)
             elif entry == "sbar":
                 it = pb.sbar(source, **opts)
             elif entry == "PBar":
@@ -727,9 +739,18 @@ def _die_with_parent():
         pass
 
 
+def _inner_square(x):
+    return x * x + 1
+
+
 def _work(kind, payload):
     if kind == "square":
         return payload * payload + 1
+    if kind == "nested":
+        # the task uses the parallel map itself (a two-level computation): a pmap call that begins and ends inside a
+        # worker of another pmap call
+        import esutil.pbar as pb
+        return sum(pb.pmap(_inner_square, [payload, payload + 1, payload + 2], nproc=2, file=io.StringIO()))
     from esutil import algorithm
     if kind == "qs":
         keys = payload[0]
@@ -809,6 +830,8 @@ def gated(item):
 
 
 def plain(item):
+    if item[3] == "nested":
+        return sum((item[1] + j) * (item[1] + j) + 1 for j in range(3))     # (the reference does not go through pmap)
     return _work(item[3], item[1])
 
 
@@ -983,6 +1006,15 @@ def _as_form(items, form):
         return (x for x in items)
     if form == "iter":
         return iter(items)
+    if form == "gen_pmap":
+        def g():
+            # the items come out of a computation that itself uses the parallel map while the outer call consumes it
+            import esutil.pbar as pb
+            for j, x in enumerate(items):
+                if j % 5 == 0:
+                    pb.pmap(_inner_square, [j, j + 1], nproc=2, file=io.StringIO())
+                yield x
+        return g()
     if form == "map":
         return map(tuple, items)
     return items
@@ -1132,6 +1164,8 @@ def execute_pool(script, run, env):
     form = cfg.get("itemform", "list")
     if form != "list":
         run.fault("items_as_" + ("one_shot_iterable" if form != "tuple" else "tuple"))
+    if form == "gen_pmap" or work == "nested":
+        run.fault("pmap_used_inside_a_running_pmap_call")
     status, got, err = _run_call(run, root, len(pre), items, sigma, nproc, chunksize, kw, clock, form=form)
     inversions = sum(1 for a in range(len(sigma)) for b in range(a + 1, len(sigma)) if sigma[a] > sigma[b])
     feats = {"total": "given" if "total" in cfg["kw"] else "none", "simple": bool(kw.get("simple")),
@@ -1271,6 +1305,10 @@ def simplify(script):
         for nn in (src["n"] // 2, src["n"] - 1):
             if 0 <= nn < src["n"]:
                 ns = dict(src, n=nn)
+                if ns.get("rargs"):
+                    ra = ns["rargs"]
+                    st_ = ra[2] if len(ra) == 3 else 1
+                    ns["rargs"] = [ra[1] - nn * st_] + ra[1:]
                 if ns.get("fail_at") is not None and ns["fail_at"] > nn:
                     ns["fail_at"] = nn
                 c = dict(script)
